@@ -139,12 +139,16 @@ func (p *fmter) diffFile(ff []Fragment) {
 	}
 }
 
+var stringEscaper = strings.NewReplacer(`\`, `\\`, `"`, `\"`, "\n", "\\\n")
+
 func tokenSource(tok Token) string {
 	switch tok.Type {
 	case STRING:
-		return fmt.Sprintf("%q", tok.Lit)
+		// the inverse of lexString: the only escapes are \\, \" and an escaped newline.
+		return `"` + stringEscaper.Replace(tok.Lit) + `"`
 	case REGEX:
-		return fmt.Sprintf("/%s/", tok.Lit)
+		// the inverse of lexRegex: // is a /
+		return "/" + strings.ReplaceAll(tok.Lit, "/", "//") + "/"
 	case DESCRIPTION:
 		return fmt.Sprintf("| %s", tok.Lit)
 	case COMMENT:
